@@ -43,7 +43,10 @@ class TunnellingAck(KNXIPBodyResponse):
             raise CouldNotParseKNXIP("TunnellingAck body has invalid length")
         self.communication_channel_id = raw[1]
         self.sequence_counter = raw[2]
-        self.status_code = ErrorCode(raw[3])
+        try:
+            self.status_code = ErrorCode(raw[3])
+        except ValueError as err:
+            raise CouldNotParseKNXIP(f"unsupported status code: {raw[3]:#x}") from err
         return TunnellingAck.BODY_LENGTH
 
     def to_knx(self) -> bytes:
